@@ -545,6 +545,143 @@ def read_call_notifiers(src, funcs):
     return sources, reads
 
 
+def split_args(inner):
+    depth, parts, cur = 0, [], ""
+    for ch in inner:
+        if ch in "([":
+            depth += 1
+        elif ch in ")]":
+            depth -= 1
+        if ch == "," and depth == 0:
+            parts.append(cur)
+            cur = ""
+        else:
+            cur += ch
+    parts.append(cur)
+    return [" ".join(p.split()) for p in parts]
+
+
+def block_chain(src, fa, pos):
+    """Positions of the `{` of every block of the function body starting at `fa` that encloses `pos`."""
+    chain = []
+    i = fa
+    while i < pos:
+        ch = src[i]
+        if ch == "{":
+            chain.append(i)
+        elif ch == "}":
+            chain.pop()
+        i += 1
+    return chain
+
+
+def else_arm_of(src, first_open, other_open):
+    """Is the block opened at `other_open` an `else` / `else if` arm of the `if` whose arm opens at `first_open`?"""
+    cur = first_open
+    while True:
+        close = matching(src, cur)
+        nxt = src.find("{", close)
+        if nxt < 0:
+            return False
+        between = " ".join(src[close + 1:nxt].split())
+        if not re.match(r"^else\b", between):
+            return False
+        if between != "else" and not re.match(r"^else if \(.*\)$", between):
+            raise Shape("else arm without braces near offset %d" % close)
+        if nxt == other_open:
+            return True
+        cur = nxt
+
+
+def reachable_after(src, fa, s, d):
+    """Can the statement at `d` run after the statement at `s` (d textually later, same function; loops and gotos
+    ignored)?  Only excluded: `d` sits in an else arm of the `if` whose earlier arm holds `s`."""
+    cs, cd = block_chain(src, fa, s), block_chain(src, fa, d)
+    k = 0
+    while k < len(cs) and k < len(cd) and cs[k] == cd[k]:
+        k += 1
+    if k < len(cs) and k < len(cd):
+        return not else_arm_of(src, cs[k], cd[k])
+    return True
+
+
+STEALING = [("PyException_SetCause", [1]), ("PyTuple_SET_ITEM", [2]), ("PyList_SET_ITEM", [2]),
+            ("PyErr_Restore", [0, 1, 2])]
+
+
+def read_steals(src, funcs):
+    """Every variable handed to an argument position that STEALS the reference: (function, API, variable, number of
+    `Py_DECREF` / `Py_XDECREF` / `Py_CLEAR` of that variable that can run afterwards in the same function before the
+    variable is assigned again)."""
+    rows = []
+    for m in re.finditer(r"\b(%s)\s*\(" % "|".join(a for a, _ in STEALING), src):
+        e = matching(src, m.end() - 1, "(", ")")
+        fname, fa, fb = enclosing(funcs, m.start())
+        if fname is None:
+            raise Shape("stealing call outside a function at offset %d" % m.start())
+        parts = split_args(src[m.end():e])
+        for i in dict(STEALING)[m.group(1)]:
+            if i >= len(parts):
+                raise Shape("%s: %s with %d arguments" % (fname, m.group(1), len(parts)))
+            arg = re.sub(r"^\(\s*\w+\s*\*?\s*\)\s*", "", parts[i])
+            if not re.match(r"^\w+$", arg):
+                continue                      # a call expression: nothing to release afterwards
+            stop = fb
+            ra = re.search(r"\b%s\s*=(?!=)" % re.escape(arg), src[e:fb])
+            if ra:
+                stop = e + ra.start()
+            n = 0
+            for d in re.finditer(r"\bPy_(?:X?DECREF|CLEAR)\s*\(\s*%s\s*\)" % re.escape(arg), src[e:stop]):
+                if reachable_after(src, fa, m.start(), e + d.start()):
+                    n += 1
+            rows.append((fname, m.group(1), arg, n))
+    if not any(r[1] == "PyException_SetCause" for r in rows):
+        raise Shape("no PyException_SetCause call found")
+    return rows
+
+
+def read_field_releases(src, funcs):
+    """(function, `var->field`, stored again afterwards) for every `Py_DECREF` / `Py_XDECREF` applied directly to a
+    struct field: the release runs arbitrary code (finalizers) - and, when the new value is the old one, frees it -
+    while the field still points to the released object, unless nothing is stored there afterwards (`Py_CLEAR` and
+    the store-then-release-a-local pattern are the safe forms and are not listed)."""
+    rows = []
+    for m in re.finditer(r"\bPy_X?DECREF\s*\(\s*(\w+)\s*->\s*(\w+)\s*\)\s*;", src):
+        fname, fa, fb = enclosing(funcs, m.start())
+        if fname is None:
+            raise Shape("field release outside a function at offset %d" % m.start())
+        later = re.search(r"\b%s\s*->\s*%s\s*=(?!=)" % (m.group(1), m.group(2)), src[m.end():fb])
+        rows.append((fname, "%s->%s" % (m.group(1), m.group(2)), bool(later)))
+    return rows
+
+
+def read_trait_clone(src, funcs):
+    """`trait_object`'s reference-holding fields, and for `trait_clone` the fields it copies from the source with
+    whether the copy is followed by an INCREF of that field."""
+    ms = re.search(r"typedef\s+struct\s+_trait_object\s*\{", src)
+    if not ms:
+        raise Shape("struct _trait_object not found")
+    body = src[ms.end():matching(src, ms.end() - 1)]
+    owned = re.findall(r"\bPy(?:List|Dict)?Object\s*\*\s*(\w+)\s*;", body)
+    if len(owned) < 6:
+        raise Shape("struct _trait_object: reference fields not recognised")
+    byname = dict((n, (a, b)) for n, a, b in reversed(funcs))
+    if "trait_clone" not in byname:
+        raise Shape("trait_clone not found")
+    a, b = byname["trait_clone"]
+    fbody = src[a:b]
+    copies = []
+    for m in re.finditer(r"\btrait\s*->\s*(\w+)\s*=\s*source\s*->\s*(\w+)\s*;", fbody):
+        if m.group(1) != m.group(2):
+            raise Shape("trait_clone copies %s from %s" % (m.group(1), m.group(2)))
+        f = m.group(1)
+        inc = re.search(r"\bPy_X?INCREF\s*\(\s*(?:trait|source)\s*->\s*%s\s*\)" % f, fbody[m.end():])
+        copies.append((f, bool(inc)))
+    if len(re.findall(r"\btrait\s*->\s*\w+\s*=(?!=)", fbody)) != len(copies):
+        raise Shape("trait_clone: a store that is not `trait->f = source->f`")
+    return owned, copies
+
+
 def read_complex_cases(src, funcs, consts):
     for n, a, b in funcs:
         if n == "validate_trait_complex":
@@ -589,6 +726,9 @@ def emit(traits_dir):
     stolen = read_stolen_references(src, funcs)
     deallocs = read_deallocs(src, funcs)
     cn_sources, cn_reads = read_call_notifiers(src, funcs)
+    steals = read_steals(src, funcs)
+    releases = read_field_releases(src, funcs)
+    owned_fields, clone_copies = read_trait_clone(src, funcs)
 
     L = ["/- GENERATED by harness/translate/ctables.py from traits/ctraits.c of the working tree - do not edit. -/",
          "namespace TraitsVerif.Generated.CTables", ""]
@@ -669,6 +809,25 @@ def emit(traits_dir):
     L.append("list every `PyObject_Call` of the function reads its callable from. -/")
     L.append("def callNotifiersListSources : List String := %s" % lean_strs(cn_sources))
     L.append("def callNotifiersLoopReads : List String := %s" % lean_strs(cn_reads))
+    L.append("")
+    L.append("/-- Every variable passed in an argument position that STEALS the reference (`PyException_SetCause` 2nd,")
+    L.append("`PyTuple_SET_ITEM` / `PyList_SET_ITEM` 3rd, `PyErr_Restore` all three): (function, API, variable, number of")
+    L.append("`Py_DECREF` / `Py_XDECREF` / `Py_CLEAR` of that variable that can run afterwards in the same function before")
+    L.append("the variable is assigned again; an `else` arm of the `if` holding the call does not count). -/")
+    L.append("def stolenThenReleased : List (String × String × String × Nat) := [")
+    L.append(",\n".join("  (%s, %s, %s, %d)" % (q(a), q(b), q(c), n) for a, b, c, n in steals))
+    L.append("]")
+    L.append("/-- Every `Py_DECREF` / `Py_XDECREF` applied directly to a struct field: (function, field expression, is the")
+    L.append("field stored again later in the function).  `true`: the old object is released - finalizers run, and it is")
+    L.append("freed if the new value is the old one - while the field still points to it. -/")
+    L.append("def fieldReleases : List (String × String × Bool) := [")
+    L.append(",\n".join("  (%s, %s, %s)" % (q(a), q(b), "true" if c else "false") for a, b, c in releases))
+    L.append("]")
+    L.append("/-- The reference-holding fields of `trait_object`; the fields `trait_clone` copies (`trait->f = source->f`)")
+    L.append("with whether an INCREF of that field follows the copy (the function has no other store). -/")
+    L.append("def traitObjectFields : List String := %s" % lean_strs(owned_fields))
+    L.append("def traitCloneCopies : List (String × Bool) := [%s]" % ", ".join(
+        "(%s, %s)" % (q(f), "true" if i else "false") for f, i in clone_copies))
     L.append("")
     L.append("/-! `#define` constants. -/")
     L.append("def constants : List (String × Nat) := [")
